@@ -251,12 +251,130 @@ def impl_decode(node, bs) -> str:
     return "ok " + fields_str(node, vals_of(node, o))
 
 
+
+# ============================================================================ structured ("magic") constants
+# Uniform and boundary values never hit code that special-cases values with DOMAIN meaning (a 128-bit type built on the
+# HAP base UUID, a port number, an ASCII-looking word, a sign bit, ...).  Two sources:
+#   * generic bit patterns for every width: sign/carry boundaries at every byte position, repeated bytes, all-ones halves,
+#     ascending/descending bytes, ASCII-looking bytes, a single odd byte inside all-ones / all-zeros;
+#   * constants harvested by reflection from the installed aiohomekit package itself: every UUID-looking string and every
+#     integer constant found in module and class namespaces (service / characteristic type tables, TLV tags, status codes,
+#     ports).  For 128-bit fields the harvested UUIDs are also analysed for a common "base" (most frequent low 96 bits) which
+#     is spliced with boundary prefixes, and perturbed into near misses.
+_HARVEST = None
+
+
+def harvest_constants():
+    """-> dict(uuids=[int...], ints=[int...], bases=[low-96-bit patterns by frequency]) from the loaded aiohomekit modules"""
+    global _HARVEST
+    if _HARVEST is not None:
+        return _HARVEST
+    import re
+    import sys
+    uu = re.compile(r"^[0-9a-fA-F]{8}-[0-9a-fA-F]{4}-[0-9a-fA-F]{4}-[0-9a-fA-F]{4}-[0-9a-fA-F]{12}$")
+    uuids, ints = set(), set()
+
+    def scan(ns, depth):
+        for name, v in list(ns.items()):
+            if name.startswith("__"):
+                continue
+            if isinstance(v, str):
+                if uu.match(v):
+                    uuids.add(int(v.replace("-", ""), 16))
+            elif isinstance(v, bool):
+                continue
+            elif isinstance(v, int):
+                if 0 <= int(v) < (1 << 128):
+                    ints.add(int(v))
+            elif isinstance(v, dict) and depth < 2:
+                for k2 in list(v.keys())[:2000]:
+                    if isinstance(k2, str) and uu.match(k2):
+                        uuids.add(int(k2.replace("-", ""), 16))
+                    elif isinstance(k2, int) and not isinstance(k2, bool) and 0 <= k2 < (1 << 128):
+                        ints.add(int(k2))
+            elif isinstance(v, type) and depth < 2 and getattr(v, "__module__", "").startswith("aiohomekit"):
+                try:
+                    scan(vars(v), depth + 1)
+                except Exception:  # noqa
+                    pass
+    for mname, mod in sorted(sys.modules.items()):
+        if mname.startswith("aiohomekit") and mod is not None:
+            try:
+                scan(vars(mod), 0)
+            except Exception:  # noqa
+                pass
+    lows = collections.Counter(u & ((1 << 96) - 1) for u in uuids)
+    bases = [b for b, c in lows.most_common(3) if c >= 3]
+    _HARVEST = dict(uuids=sorted(uuids), ints=sorted(ints), bases=bases)
+    return _HARVEST
+
+
+def pattern_ints(w):
+    """generic structured bit patterns of a w-byte unsigned integer"""
+    top = (1 << (8 * w)) - 1
+    out = set()
+    for k in range(1, w + 1):                      # sign / carry boundaries at every byte position
+        for x in ((1 << (8 * k - 1)) - 1, 1 << (8 * k - 1), (1 << (8 * k)) - 1, 1 << (8 * k), (1 << (8 * k)) + 1):
+            out.add(x & top)
+    for b in (0x01, 0x7F, 0x80, 0xAA, 0x55, 0xFE, 0x20, 0x30, 0x41, 0x61):   # one byte repeated (incl. ASCII ' ', '0', 'A', 'a')
+        out.add(int.from_bytes(bytes([b]) * w, "little"))
+    out.add(int.from_bytes(bytes(range(1, w + 1)), "little"))                  # ascending / descending bytes
+    out.add(int.from_bytes(bytes(range(1, w + 1)), "big"))
+    out.add(int.from_bytes(b"null-None-true-0"[:w].ljust(w, b"x"), "big"))     # ASCII words
+    if w >= 2:
+        half = 8 * w // 2
+        out |= {top >> half, (top >> half) << half, 0xFEFF & top, 0xFFFE & top}  # all-ones halves, byte-order marks
+        for pos in (0, w - 1):                                                  # one odd byte inside all-ones / all-zeros
+            out.add(top ^ (0xFF << (8 * pos)))
+            out.add(top ^ (0x7F << (8 * pos)))
+            out.add(0x80 << (8 * pos))
+    return sorted(out)
+
+
+def magic_ints(w, r, limit):
+    """structured constants for a w-byte field: patterns + harvested package constants (+ UUID bases for 128 bit)"""
+    top = (1 << (8 * w)) - 1
+    h = harvest_constants()
+    out = list(pattern_ints(w))
+    fit = [x for x in h["ints"] if (1 << (8 * (w - 1)) if w > 1 else 0) <= x <= top] or [x for x in h["ints"] if x <= top]
+    out += r.sample(fit, min(len(fit), 12))
+    if w == 16:
+        mask96 = (1 << 96) - 1
+        bases = list(h["bases"]) or []
+        bases.append(0x0000_1000_8000_00805F9B34FB)                            # the Bluetooth base UUID (BLE transports)
+        for base in bases:
+            for pre in (1, 0x43, 0xFF, 0x100, 0x7FFFFFFF, 0x80000000, 0xFFFFFFFF):
+                out.append((pre << 96) | base)                                  # <prefix>-<base>
+            out += [base, (1 << 96) | (base ^ 1), (1 << 96) | (base ^ (1 << 95)), (1 << 96) | ((base + 1) & mask96),
+                    (0x43 << 96) | (base >> 8), ((0x43 << 96) | base) ^ (1 << 40)]   # base alone and near misses
+        us = h["uuids"]
+        out += r.sample(us, min(len(us), limit))                                # real service / characteristic types
+        if len(us) >= 2:                                                        # high part of one, low part of another
+            for _ in range(4):
+                a, b = r.sample(us, 2)
+                out.append(((a >> 64) << 64) | (b & ((1 << 64) - 1)))
+        out += [u >> 96 for u in r.sample(us, min(len(us), 6)) if u >> 96]      # their short forms
+    seen, res = set(), []
+    for x in out:
+        if 0 <= x <= top and x not in seen:
+            seen.add(x)
+            res.append(x)
+    return res
+
+
+MAGIC_BYTES = [b"\x00", b"\xff", b"\x00\x00", b"\xff\xff", b"null", b"None", b"true", b"0", b" ", b"\xef\xbb\xbf", b"\xff\xfe",
+               b"\x91\x52\x76\xbb\x26\x00\x00\x80\x00\x10\x00\x00\x43\x00\x00\x00",          # a HAP-base UUID, little endian
+               b"00000043-0000-1000-8000-0026BB765291", b"\x7f", b"\x80", b"\r\n", b"{}", b"[]", b"\x1b[0m"]
+MAGIC_STRS = ["0", " ", "null", "None", "true", "﻿", "\x00", "\x7f", "00000043-0000-1000-8000-0026BB765291", "{}", "\r\n",
+              "‮", "A" * 16, "é", "\U0001F600"]
+
 # ============================================================================ generators
 def leaf_variants(node, tag, r, tier):
     k = node["k"]
     if k == "int":
         top = (1 << (8 * node["w"])) - 1
-        return sorted({0, 1, top, top >> 1, (top >> 1) + 1, 0x0100 & top, 0xFF & top, r.randrange(top + 1)})
+        base = {0, 1, top, top >> 1, (top >> 1) + 1, 0x0100 & top, 0xFF & top, r.randrange(top + 1)}
+        return sorted(base | set(magic_ints(node["w"], r, 12 if tier == "quick" else 150)))
     if k == "enum":
         return node["members"][:8]
     if k == "str":
@@ -267,7 +385,7 @@ def leaf_variants(node, tag, r, tier):
             out.append("é" * (n // 2) + ("z" if n % 2 else ""))          # 2-byte sequences straddling the cut
         out.append("€" * 85)                                             # 255 bytes of 3-byte sequences
         out.append("\U0001F600" * 64)                                         # 256 bytes of 4-byte sequences
-        return out
+        return out + MAGIC_STRS
     if k == "bytes":
         out = []
         for n in SIZES:
@@ -279,7 +397,7 @@ def leaf_variants(node, tag, r, tier):
         if tier != "quick":
             for n in (765, 1020, 1021):
                 out.append(bytes((i * 13) & 0xFF for i in range(n)))
-        return out
+        return out + MAGIC_BYTES
     if k == "pint":
         out = []
         top = (1 << (8 * node["w"])) - 1
@@ -342,6 +460,8 @@ def rand_leaf(node, tag, r):
     k = node["k"]
     if k == "int":
         top = (1 << (8 * node["w"])) - 1
+        if r.random() < 0.35:
+            return r.choice(magic_ints(node["w"], r, 8))
         return r.choice([0, 1, top, r.randrange(top + 1), r.randrange(256)])
     if k == "enum":
         return r.choice(node["members"])
@@ -716,10 +836,343 @@ def neighbourhood_failure(node, vs, seed_idx, limit=120):
     return None
 
 
+# ============================================================================ extraction cross-check (driver vs vm_compute)
+# A small deterministic sample of the run's REAL driver requests is evaluated a second time inside Coq (`Eval vm_compute`
+# on the same Model/Tlv8.v functions the driver calls) and compared, token for token, with what the extracted OCaml
+# driver answered.  The textual schema/value syntax is parsed here independently of ocaml/drv_c16.ml, so the hand-written
+# OCaml parser/printer is cross-checked together with the extraction.
+XC_QUOTA = {"wf": 3, "fits": 3, "enc": 5, "spec": 3, "dec": 7, "arr": 3, "items": 3, "utf8": 3}
+XC_MAX_CHARS = 2400          # request and answer each: keeps every Gallina literal well under ~1500 list elements
+XC_ERR = {"parse": 0, "serialize": 1, "range": 2, "value": 3, "attr": 4}
+XC_FIN = {"end": 0, "crash": 1, "fuel": 2}
+XC_KIND = {"u8": "U8", "u16": "U16", "bu16": "BU16", "u32": "U32", "u64": "U64", "u128": "U128"}
+XC_HEADER = """From Coq Require Import List NArith.
+From AHK Require Import Lib.Res Lib.ByteStr Model.Tlv8.
+Import ListNotations.
+Definition len {A} (l : list A) : N := N.of_nat (length l).
+Fixpoint show_val (v : val) : list N :=
+  match v with
+  | VInt n => [0%N; n]
+  | VB b => 1%N :: len b :: b
+  | VStruct vs => 2%N :: len vs :: flat_map (fun o => match o with None => [0%N] | Some x => 1%N :: show_val x end) vs
+  | VSeq l => 3%N :: len l :: flat_map (fun vs => len vs :: flat_map (fun o => match o with None => [0%N] | Some x => 1%N :: show_val x end) vs) l
+  | VIds l => 4%N :: len l :: l
+  end.
+Definition show_r {A} (f : A -> list N) (r : R A) : list N :=
+  match r with Ok x => 0%N :: f x | Err EParse => [1%N; 0%N] | Err ESerialize => [1%N; 1%N] | Err ERange => [1%N; 2%N]
+  | Err EValue => [1%N; 3%N] | Err EAttr => [1%N; 4%N] | Crash => [2%N] | OutOfFuel => [3%N] end.
+Definition show_bytes (b : bytes) : list N := b.
+Definition show_bool (b : bool) : list N := [if b then 1%N else 0%N].
+Definition show_fin (e : fin) : N := match e with FinOk => 0%N | FinCrash => 1%N | FinFuel => 2%N end.
+Definition show_arr (p : list bytes * fin) : list N := show_fin (snd p) :: len (fst p) :: flat_map (fun b => len b :: b) (fst p).
+Definition show_items (p : list (N * bytes) * fin) : list N :=
+  show_fin (snd p) :: len (fst p) :: flat_map (fun kv => fst kv :: len (snd kv) :: snd kv) (fst p).
+"""
+
+
+class _XcParse(Exception):
+    pass
+
+
+def _xc_num(s, p):
+    q = p
+    while q < len(s) and s[q].isdigit():
+        q += 1
+    if q == p:
+        raise _XcParse(f"number at {p}")
+    return int(s[p:q]), q
+
+
+def _xc_list(s, p, close, sep, elem):
+    """p is just after the opening bracket -> ([elements], position after the closing bracket)"""
+    if s[p:p + 1] == close:
+        return [], p + 1
+    out = []
+    while True:
+        x, p = elem(s, p)
+        out.append(x)
+        if s[p:p + 1] == sep:
+            p += 1
+            continue
+        if s[p:p + 1] != close:
+            raise _XcParse(f"expected {close} at {p}")
+        return out, p + 1
+
+
+def _xc_kind(s, p):
+    q = p
+    while q < len(s) and (s[q].isdigit() or s[q] in "ub"):
+        q += 1
+    if s[p:q] not in XC_KIND:
+        raise _XcParse(f"kind at {p}")
+    return XC_KIND[s[p:q]], q
+
+
+def _xc_ty(s, p):
+    """schema syntax (see ocaml/drv_c16.ml) -> (Gallina term of type ty, next position)"""
+    c = s[p:p + 1]
+    if c == "e":
+        if s[p + 1:p + 2] != "(":
+            raise _XcParse(f"enum at {p}")
+        ms, p = _xc_list(s, p + 2, ")", ",", _xc_num)
+        return "(TEnum [" + "; ".join(f"{m}%N" for m in ms) + "])", p
+    if c == "s":
+        return "TStr", p + 1
+    if c == "x":
+        return "TUnsupp", p + 1
+    if c in ("S", "Q"):
+        if s[p + 1:p + 2] != "[":
+            raise _XcParse(f"fields at {p}")
+
+        def field(s, p):
+            t, p = _xc_num(s, p)
+            if s[p:p + 1] != ":":
+                raise _XcParse(f"expected : at {p}")
+            ft, p = _xc_ty(s, p + 1)
+            return f"({t}%N, {ft})", p
+        fs, p = _xc_list(s, p + 2, "]", ";", field)
+        return "(" + ("TStruct" if c == "S" else "TSeq") + " [" + "; ".join(fs) + "])", p
+    if c == "P":
+        k, p = _xc_kind(s, p + 1)
+        return f"(TSeqInt {k})", p
+    if c == "b" and s[p + 1:p + 2] != "u":
+        return "TBytes", p + 1
+    k, p = _xc_kind(s, p)
+    return f"(TInt {k})", p
+
+
+def _xc_val(s, p):
+    """value syntax -> (tree, next position); tree = ('int', n) | ('b', bytes) | ('struct', [opt]) | ('seq', [[opt]]) | ('ids', [n])"""
+    c = s[p:p + 1]
+    if c == "i":
+        n, p = _xc_num(s, p + 1)
+        return ("int", n), p
+    if c == "h":
+        p += 1
+        if s[p:p + 1] == "-":
+            return ("b", b""), p + 1
+        q = p
+        while q < len(s) and s[q] in "0123456789abcdef":
+            q += 1
+        return ("b", bytes.fromhex(s[p:q])), q
+    if c == "V":
+        if s[p + 1:p + 2] != "[":
+            raise _XcParse(f"struct at {p}")
+        vs, p = _xc_list(s, p + 2, "]", ";", _xc_oval)
+        return ("struct", vs), p
+    if c == "L":
+        if s[p + 1:p + 2] != "[":
+            raise _XcParse(f"list at {p}")
+
+        def elem(s, p):
+            if s[p:p + 2] != "V[":
+                raise _XcParse(f"list element at {p}")
+            return _xc_list(s, p + 2, "]", ";", _xc_oval)
+        l, p = _xc_list(s, p + 2, "]", ";", elem)
+        return ("seq", l), p
+    if c == "I":
+        if s[p + 1:p + 2] != "(":
+            raise _XcParse(f"ids at {p}")
+        l, p = _xc_list(s, p + 2, ")", ",", _xc_num)
+        return ("ids", l), p
+    raise _XcParse(f"value at {p}")
+
+
+def _xc_oval(s, p):
+    if s[p:p + 1] == "_":
+        return None, p + 1
+    return _xc_val(s, p)
+
+
+def _xc_all(f, s):
+    x, p = f(s, 0)
+    if p != len(s):
+        raise _XcParse(f"trailing input at {p}")
+    return x
+
+
+def _xc_nlist(xs) -> str:
+    return "[" + "; ".join(f"{int(x)}%N" for x in xs) + "]"
+
+
+def _xc_val_coq(v) -> str:
+    k, x = v
+    opts = lambda vs: "[" + "; ".join("None" if o is None else f"Some {_xc_val_coq(o)}" for o in vs) + "]"
+    if k == "int":
+        return f"(VInt {x}%N)"
+    if k == "b":
+        return f"(VB {_xc_nlist(x)})"
+    if k == "struct":
+        return f"(VStruct {opts(x)})"
+    if k == "seq":
+        return "(VSeq [" + "; ".join(opts(e) for e in x) + "])"
+    return f"(VIds {_xc_nlist(x)})"
+
+
+def _xc_val_tokens(v) -> list:
+    """the same flattening as show_val in XC_HEADER"""
+    k, x = v
+    opts = lambda vs: [t for o in vs for t in ([0] if o is None else [1] + _xc_val_tokens(o))]
+    if k == "int":
+        return [0, x]
+    if k == "b":
+        return [1, len(x)] + list(x)
+    if k == "struct":
+        return [2, len(x)] + opts(x)
+    if k == "seq":
+        return [3, len(x)] + [t for e in x for t in [len(e)] + opts(e)]
+    return [4, len(x)] + list(x)
+
+
+def _xc_res_tokens(ans: str, ok_tokens) -> list:
+    if ans.startswith("ok "):
+        return [0] + ok_tokens(ans[3:])
+    if ans.startswith("err ") and ans[4:] in XC_ERR:
+        return [1, XC_ERR[ans[4:]]]
+    if ans == "crash":
+        return [2]
+    if ans == "fuel":
+        return [3]
+    raise _XcParse("answer " + ans[:40])
+
+
+def xc_render(req: str, ans: str):
+    """one driver request/answer -> (Gallina term of type list N, the token list the driver's answer stands for).
+    Raises _XcParse on anything outside the driver's grammar (such pairs are not sampled)."""
+    w = req.split(" ")
+    kind = w[0]
+    hexl = lambda h: _xc_nlist(unhx(h))
+    if kind == "wf" and len(w) == 2 and ans in ("true", "false"):
+        return f"show_bool (wf_schema {_xc_all(_xc_ty, w[1])})", [int(ans == "true")]
+    if kind == "fits" and len(w) == 3 and ans in ("true", "false"):
+        return f"show_bool (fits_msg {_xc_all(_xc_ty, w[1])} {_xc_val_coq(_xc_all(_xc_val, w[2]))})", [int(ans == "true")]
+    if kind == "utf8" and len(w) == 2 and ans in ("true", "false"):
+        return f"show_bool (utf8_valid {hexl(w[1])})", [int(ans == "true")]
+    if kind == "enc" and len(w) == 3:
+        return (f"show_r show_bytes (tlv8_encode {_xc_all(_xc_ty, w[1])} {_xc_val_coq(_xc_all(_xc_val, w[2]))})",
+                _xc_res_tokens(ans, lambda h: list(unhx(h))))
+    if kind == "spec" and len(w) == 3 and ans.startswith("ok "):
+        return (f"0%N :: show_bytes (tlv8_spec {_xc_all(_xc_ty, w[1])} {_xc_val_coq(_xc_all(_xc_val, w[2]))})",
+                [0] + list(unhx(ans[3:])))
+    if kind == "dec" and len(w) == 3:
+        return (f"show_r show_val (tlv8_decode {_xc_all(_xc_ty, w[1])} {hexl(w[2])})",
+                _xc_res_tokens(ans, lambda s: _xc_val_tokens(_xc_all(_xc_val, s))))
+    if kind in ("arr", "items") and len(w) == 2:
+        toks = [t for t in ans.split(" ") if t]
+        if not toks or toks[-1] not in XC_FIN:
+            raise _XcParse("answer " + ans[:40])
+        out = [XC_FIN[toks[-1]], len(toks) - 1]
+        for t in toks[:-1]:
+            if kind == "items":
+                k, t = t.split(":")
+                out.append(int(k))
+            b = unhx(t)
+            out += [len(b)] + list(b)
+        return f"show_{kind} (tlv8_{'array' if kind == 'arr' else 'items'} {hexl(w[1])})", out
+    raise _XcParse("request " + req[:40])
+
+
+def xc_class(kind: str, ans: str) -> str:
+    """result class of an answer: used to spread the sample over ok / every error class / crash / true / false"""
+    if kind in ("arr", "items"):
+        toks = ans.split(" ")
+        return toks[-1] + ("+" if len(toks) > 2 else "")
+    if ans.startswith("ok"):
+        return "ok"
+    return ans
+
+
+class XcSampler:
+    """Wraps Driver.batch: answers are passed through untouched; per (request kind, result class, size class) the first and
+    the last small-enough (request, answer) pair of the stream are remembered (a few hundred strings at most)."""
+
+    def __init__(self, drv):
+        self.slots = {}
+        self.seen = collections.Counter()
+        self._batch = drv.batch
+        drv.batch = self.batch
+
+    def batch(self, lines):
+        lines = list(lines)
+        ans = self._batch(lines)
+        for q, a in zip(lines, ans):
+            if len(q) > XC_MAX_CHARS or len(a) > XC_MAX_CHARS:
+                continue
+            kind = q.split(" ", 1)[0]
+            if kind not in XC_QUOTA:
+                continue
+            self.seen[kind] += 1
+            size = "s" if len(q) + len(a) < 200 else ("m" if len(q) + len(a) < 900 else "l")
+            slot = self.slots.setdefault((kind, xc_class(kind, a), size), [])
+            if not slot:
+                slot.append((q, a))
+            elif (q, a) != slot[0]:
+                slot[1:] = [(q, a)]
+        return ans
+
+    def sample(self):
+        """deterministic: per kind, round-robin over the result classes (ok/true first), within a class small before large
+        and first-of-stream before last-of-stream; only pairs that xc_render accepts"""
+        out = []
+        for kind, quota in XC_QUOTA.items():
+            by_cls = {}
+            for rank in (0, 1):
+                for size in "sml":
+                    for k in sorted(self.slots):
+                        if k[0] == kind and k[2] == size and len(self.slots[k]) > rank:
+                            pair = self.slots[k][rank]
+                            try:
+                                xc_render(*pair)
+                            except (_XcParse, ValueError):
+                                continue
+                            by_cls.setdefault(k[1], []).append(pair)
+            order = sorted(by_cls, key=lambda c: (not c.startswith(("ok", "true", "end")), c))
+            picked, rnd = [], 0
+            while len(picked) < quota and any(len(by_cls[c]) > rnd for c in order):
+                for c in order:
+                    if len(by_cls[c]) > rnd and len(picked) < quota:
+                        picked.append(by_cls[c][rnd])
+                rnd += 1
+            out += picked
+        return out
+
+
+def vm_crosscheck(ctx, sample):
+    """sample: [(request line, driver answer line)].  Every request is evaluated with `Eval vm_compute` in ONE generated Coq file
+    (same Model/Tlv8.v function the driver calls, result flattened to a list N by the show_* helpers) and compared in full with
+    the token list the driver's answer denotes.  -> (requests, disagreements, [first disagreeing requests])"""
+    import re
+    from common import coq_eval
+    if not sample:
+        return 0, 0, []
+    body, wants = [XC_HEADER], []
+    bad, where, kept = 0, [], []
+    for q, a in sample:
+        try:
+            term, want = xc_render(q, a)
+        except (_XcParse, ValueError):          # an answer outside the driver's own grammar cannot agree with anything
+            bad += 1
+            where.append(dict(request=q[:300], driver=a[:300], vm_compute="(not evaluated: answer outside the driver's grammar)"))
+            continue
+        body.append(f"Eval vm_compute in ({term}).")
+        wants.append(want)
+        kept.append((q, a))
+    out = coq_eval(ctx["verif"], "C16", "crosscheck", "\n".join(body) + "\n", timeout=300)
+    blocks = out.split("= ")[1:]
+    bad += abs(len(blocks) - len(kept))
+    for (q, a), blk, want in zip(kept, blocks, wants):
+        got = [int(x) for x in re.findall(r"\d+", blk.split(":")[0])]
+        if got != want:
+            bad += 1
+            where.append(dict(request=q[:300], driver=a[:300], vm_compute=" ".join(map(str, got))[:300]))
+    return len(sample), bad, where[:3]
+
+
 # ============================================================================ run
 def run(ctx):
     tier, seed = ctx["tier"], ctx["seed"]
     drv = Driver(ctx["driver"])
+    xc = XcSampler(drv)          # records a small sample of the (request, answer) stream; answers pass through unchanged
     cov = Coverage("a case counts when its (type, value) or (type, bytes) is distinct and at least one field is set / "
                    "at least one item is decoded or an error is raised")
     viols = []
@@ -837,8 +1290,28 @@ def run(ctx):
             if ie != me:
                 # before blaming the correspondence: does the implementation break the property on an
                 # in-domain value in the neighbourhood (shrunk forms) of this one?
-                near = neighbourhood_failure(node, vs, idx)
-                if near is not None:
+                # the canonical-form half of the property also binds values that cannot round-trip (e.g. a list with an
+                # all-unset element): "00 00" between ALL list items, declaration order, 255-byte fragments.  If the reference
+                # can encode the value and the implementation returns other bytes, that is a concrete violating input.
+                canon = None
+                if not hp and ie.startswith("ok "):
+                    try:
+                        canon = "ok " + hx(ref.ref_message(node["fields"], vs))
+                    except Exception:  # noqa  (Unrepresentable: ints out of range, non-member enums, unsupported fields)
+                        canon = None
+                near = None
+                if canon is not None and ie != canon:
+                    failing_types.add(t["name"])
+                    pth, _leaf = culprit_leaf(node, vs)
+                    add(f"canonical:{t['name']}.{pth}:{origin.replace('ood:', '')}",
+                        f"{t['module']}.{t['name']}: encode() = {ie[:90]} ; canonical encoding (00 00 between all list items) = {canon[:90]} "
+                        f"on {s[:160]}", True, type=t["name"], schema=schemas[ti], value=s[:3000], impl_encode=ie, reference_encoding=canon[3:],
+                        model_encode=me, check="canonical (outside the round-trip domain)", wf_schema=t["wf"])
+                else:
+                    near = neighbourhood_failure(node, vs, idx)
+                if canon is not None and ie != canon:
+                    pass
+                elif near is not None:
                     which, sig, small, detail = near
                     report_failure(t, ti, node, small, fields_str(node, small), which, sig, detail, idx, near=s[:2000])
                 else:
@@ -971,6 +1444,18 @@ def run(ctx):
         if not t["wf"] and t["name"] not in failing_types:
             add(f"wf:{t['name']}:no-failing-input", f"{t['name']} is outside wf_schema (theorems do not cover it) but no failing input was found",
                 False, type=t["name"])
+
+    # ---- extraction cross-check: a sample of the requests above, re-evaluated by vm_compute inside Coq
+    if not ctx.get("replay"):
+        # the driver's utf8 entry point is not used by the streams above: three requests of its own so that it is covered too
+        drv.batch(["utf8 " + hx(b) for b in ("a\u00e9\u20ac\U0001F600".encode(), "\u20ac".encode()[:2], b"\xc0\x80")])
+        xc_sample = xc.sample()
+        n_xc, bad_xc, where_xc = vm_crosscheck(ctx, xc_sample)
+        cov.extra["vm_compute_crosscheck"] = dict(requests=n_xc, disagreements=bad_xc,
+                                                  kinds=dict(collections.Counter(q.split(" ", 1)[0] for q, _ in xc_sample)))
+        if bad_xc:
+            add("extraction-vs-vm_compute", f"{bad_xc} of {n_xc} sampled requests: extracted driver and vm_compute disagree", False,
+                broken="extraction / ocaml/drv_c16.ml glue", disagreements=where_xc)
 
     cov.extra["exhaustive"] = False
     cov.extra["exhaustive_part"] = ("per reflected type: every leaf field path x every boundary variant of the leaf kind (sizes 1,254,255,256,510,511; "
@@ -1187,12 +1672,12 @@ def stream_database(types, add, cov, tier, r):
                 svcs, wsv = [], []
                 for s in range(r.choice([1, 2, 3])):
                     siid = r.randrange(1, 65536)
-                    stype = r.choice([0x3E, 0x43, 0xA2, (1 << 128) - 1, r.getrandbits(128) | 1])
+                    stype = r.choice([0x3E, 0x43, 0xA2, (1 << 128) - 1, r.getrandbits(128) | 1] + [x for x in magic_ints(16, r, 6) if x][:40])
                     linked = [r.choice([1, 16, 0x0100, 0xFF00, 0x00FF, 65535, r.randrange(1, 65536)]) for _ in range(r.choice([0, 1, 2, 3, 6]))]
                     chars, wch = [], []
                     for c in range(r.choice([1, 2, 3])):
                         ciid = r.randrange(1, 65536)
-                        ctype = r.choice([0x14, 0x23, 0x25, r.getrandbits(128) | 1])
+                        ctype = r.choice([0x14, 0x23, 0x25, r.getrandbits(128) | 1] + [x for x in magic_ints(16, r, 6) if x][:40])
                         cv = [None] * len(chrn["fields"])
                         cv[c_type], cv[c_iid], cv[c_props] = ctype, ciid, r.choice([0x0010, 0x0030, 0x00B0, 0x0001])
                         cv[c_pf] = bytes([r.choice([1, 4, 6, 8, 0x19, 0x1B]), 0, 0, 0x27, 1, 0, 0])
